@@ -508,3 +508,335 @@ Proof.
 Qed.
 
 End MergeDesc.
+
+Arguments mg_rows {row} st.
+Arguments mg_next {row} rest.
+Arguments mg_ge {row} score a b.
+Arguments mg_live_sorted {row} score p.
+Arguments mg_at {row} score s l.
+
+(* ======================================================================================== *)
+Section MergeDir.
+Variable row : Type.
+Variable score : row -> Z.
+
+(* ---------- specification vocabulary ---------- *)
+(* "l is sorted as declared": non-increasing (desc) / non-decreasing (asc) score, all pairs *)
+Definition mg_dir (desc : bool) (a b : row) : Prop :=
+  if desc then score a >= score b else score a <= score b.
+Definition mg_sorted (desc : bool) (l : list row) : Prop := StronglySorted (mg_dir desc) l.
+(* the declared shape of a merge call: at least one input, every input has a row *)
+Definition mg_wf (inputs : list (list row)) : Prop := inputs <> [] /\ Forall (fun l => l <> []) inputs.
+
+(* ascending = descending for the negated score *)
+Definition mg_neg (r : row) : Z := - score r.
+Definition mg_key (desc : bool) : row -> Z := if desc then score else mg_neg.
+
+Lemma mg_sorted_key : forall desc l, mg_sorted desc l <-> StronglySorted (mg_ge (mg_key desc)) l.
+Proof.
+  intros [|] l; unfold mg_sorted; split; apply mg_StronglySorted_impl; intros a b;
+    unfold mg_dir, mg_ge, mg_key, mg_neg; lia.
+Qed.
+
+Lemma mg_sorted_dec : forall desc l, {mg_sorted desc l} + {~ mg_sorted desc l}.
+Proof.
+  intros desc l. destruct (mg_sorted_ge_dec row (mg_key desc) l) as [H|H].
+  - left. now apply mg_sorted_key.
+  - right. intros H'. apply H. now apply mg_sorted_key.
+Qed.
+
+(* equivalently: no adjacent inversion (what a streaming check can see) *)
+Lemma mg_sorted_adjacent : forall desc l, mg_sorted desc l <-> Sorted (mg_dir desc) l.
+Proof.
+  intros desc l. split; [apply StronglySorted_Sorted|]. apply Sorted_StronglySorted.
+  intros a b c. destruct desc; unfold mg_dir; lia.
+Qed.
+
+Lemma mg_chk_loop_asc : forall fuel (st : list (mg_live row)),
+  mg_chk_loop score false fuel st = mg_chk_loop mg_neg true fuel st.
+Proof.
+  induction fuel as [|f IH]; intros [|d st0]; try reflexivity.
+  rewrite (mg_chk_S row score false f (d :: st0) d eq_refl).
+  rewrite (mg_chk_S row mg_neg true f (d :: st0) d eq_refl). cbv zeta.
+  unfold mg_pick. rewrite mg_argmin_opp, map_map.
+  change (map (fun x : mg_live row => - score (fst x)) (d :: st0))
+    with (map (fun p : mg_live row => mg_neg (fst p)) (d :: st0)).
+  destruct (nth (mg_argmax_first (map (fun p : mg_live row => mg_neg (fst p)) (d :: st0))) (d :: st0) d)
+    as [r rest].
+  assert (E : match rest with [] => false | r' :: _ => mg_inversion false (score r') (score r) end =
+              match rest with [] => false | r' :: _ => mg_inversion true (mg_neg r') (mg_neg r) end).
+  { destruct rest as [|r' rest']; [reflexivity|]. unfold mg_inversion, mg_neg.
+    destruct (Z.ltb_spec (score r') (score r)); destruct (Z.ltb_spec (- score r) (- score r')); try lia;
+      reflexivity. }
+  rewrite E. rewrite IH. reflexivity.
+Qed.
+
+Lemma mg_chk_loop_key : forall desc fuel (st : list (mg_live row)),
+  mg_chk_loop score desc fuel st = mg_chk_loop (mg_key desc) true fuel st.
+Proof. intros [|] fuel st; [reflexivity | apply mg_chk_loop_asc]. Qed.
+
+Lemma mg_stream_key : forall desc inputs,
+  mg_merge_stream score desc inputs = mg_merge_stream (mg_key desc) true inputs.
+Proof.
+  intros desc inputs. unfold mg_merge_stream. destruct inputs as [|l ls]; [reflexivity|].
+  destruct (existsb mg_is_nil (l :: ls)); [reflexivity | apply mg_chk_loop_key].
+Qed.
+
+Lemma mg_stream_wf : forall desc inputs, mg_wf inputs ->
+  mg_merge_stream score desc inputs = mg_chk_loop score desc (length (concat inputs)) (mg_init inputs).
+Proof.
+  intros desc inputs [H1 H2]. unfold mg_merge_stream. destruct inputs as [|l ls]; [congruence|].
+  apply mg_no_empty in H2. rewrite H2. reflexivity.
+Qed.
+
+Lemma mg_at_key : forall desc s l, mg_at (mg_key desc) (if desc then s else - s) l = mg_at score s l.
+Proof.
+  intros [|] s l; [reflexivity|]. unfold mg_at. apply filter_ext. intros a. unfold mg_key, mg_neg.
+  destruct (Z.eqb_spec (- score a) (- s)); destruct (Z.eqb_spec (score a) s); try lia; reflexivity.
+Qed.
+
+(* ---------- (1) the row-dict merge: utils.merge_sort ---------- *)
+Lemma mg_merge_all_perm : forall inputs, Permutation (mg_merge_all score inputs) (concat inputs).
+Proof.
+  intros inputs. unfold mg_merge_all. rewrite <- (mg_rows_init row inputs) at 2.
+  apply mg_merge_perm. rewrite mg_rows_init. lia.
+Qed.
+
+Lemma mg_merge_all_sorted : forall inputs,
+  Forall (mg_sorted true) inputs -> mg_sorted true (mg_merge_all score inputs).
+Proof.
+  intros inputs H. unfold mg_merge_all. apply (mg_merge_sorted row score).
+  - rewrite mg_rows_init. lia.
+  - apply mg_init_sorted. exact H.
+Qed.
+
+Lemma mg_merge_all_ties : forall inputs, Forall (mg_sorted true) inputs ->
+  forall s, mg_at score s (mg_merge_all score inputs) = mg_at score s (concat inputs).
+Proof.
+  intros inputs H s. unfold mg_merge_all. rewrite <- (mg_rows_init row inputs) at 2.
+  apply mg_merge_ties; [rewrite mg_rows_init; lia | apply mg_init_sorted; exact H].
+Qed.
+
+Lemma mg_merge_all_fuel : forall inputs k,
+  mg_merge score (length (concat inputs) + k) (mg_init inputs) = mg_merge_all score inputs.
+Proof. intros. unfold mg_merge_all. apply mg_merge_fuel_irrel. rewrite mg_rows_init. lia. Qed.
+
+Lemma mg_merge_all_length : forall inputs, length (mg_merge_all score inputs) = length (concat inputs).
+Proof. intros. apply Permutation_length, mg_merge_all_perm. Qed.
+
+(* a sorted list is determined by its rows of each score, in order: with mg_merge_all_perm/_sorted/_ties
+   this makes the specification complete (it has exactly one solution) *)
+Lemma mg_sorted_ties_unique : forall l1 l2 : list row,
+  mg_sorted true l1 -> mg_sorted true l2 ->
+  (forall s, mg_at score s l1 = mg_at score s l2) -> l1 = l2.
+Proof.
+  assert (In_at : forall x l, In x l -> In x (mg_at score (score x) l)).
+  { intros x l H. unfold mg_at. apply filter_In. split; [exact H | apply Z.eqb_refl]. }
+  assert (At_in : forall x s l, In x (mg_at score s l) -> In x l).
+  { intros x s l H. unfold mg_at in H. apply filter_In in H. tauto. }
+  induction l1 as [|a l1 IH]; intros l2 S1 S2 H.
+  - destruct l2 as [|b l2]; [reflexivity|]. exfalso.
+    specialize (H (score b)). cbn in H. rewrite Z.eqb_refl in H. discriminate.
+  - destruct l2 as [|b l2].
+    { exfalso. specialize (H (score a)). cbn in H. rewrite Z.eqb_refl in H. discriminate. }
+    apply StronglySorted_inv in S1. destruct S1 as [S1 F1].
+    apply StronglySorted_inv in S2. destruct S2 as [S2 F2].
+    rewrite Forall_forall in F1, F2. unfold mg_dir in F1, F2.
+    assert (Hs : score a = score b).
+    { assert (Ia : In a (b :: l2)).
+      { apply (At_in a (score a)). rewrite <- H. apply In_at. now left. }
+      assert (Ib : In b (a :: l1)).
+      { apply (At_in b (score b)). rewrite H. apply In_at. now left. }
+      destruct Ia as [Ia|Ia]; [now subst|]. destruct Ib as [Ib|Ib]; [now subst|].
+      specialize (F1 _ Ib). specialize (F2 _ Ia). lia. }
+    assert (Hab : a = b).
+    { specialize (H (score a)). cbn in H. rewrite Z.eqb_refl in H.
+      rewrite <- Hs, Z.eqb_refl in H. now inversion H. }
+    subst b. f_equal. apply IH; auto.
+    intros s. specialize (H s). cbn in H. destruct (score a =? s); [now inversion H | exact H].
+Qed.
+
+Lemma mg_merge_all_unique : forall inputs out,
+  Forall (mg_sorted true) inputs -> mg_sorted true out ->
+  (forall s, mg_at score s out = mg_at score s (concat inputs)) ->
+  out = mg_merge_all score inputs.
+Proof.
+  intros inputs out Hin Hout Hties. apply mg_sorted_ties_unique; auto.
+  - now apply mg_merge_all_sorted.
+  - intros s. now rewrite Hties, mg_merge_all_ties.
+Qed.
+
+(* what does not depend on how the rows are spread over inputs: the multiset and the score sequence
+   (the order among equal scores does: C14_ties_depend_on_split in Props/C14.v) *)
+Lemma mg_sorted_map : forall l, mg_sorted true l -> StronglySorted Z.ge (map score l).
+Proof.
+  intros l S. induction S as [|a l S IH F]; cbn; constructor; auto.
+  apply Forall_map. eapply Forall_impl; [|exact F]. intros b Hb. exact Hb.
+Qed.
+
+Lemma mg_inputs_split : forall A B,
+  Forall (mg_sorted true) A -> Forall (mg_sorted true) B -> Permutation (concat A) (concat B) ->
+  Permutation (mg_merge_all score A) (mg_merge_all score B) /\
+  map score (mg_merge_all score A) = map score (mg_merge_all score B).
+Proof.
+  intros A B HA HB P.
+  assert (PP : Permutation (mg_merge_all score A) (mg_merge_all score B)).
+  { eapply Permutation_trans; [apply mg_merge_all_perm|].
+    eapply Permutation_trans; [exact P | apply Permutation_sym, mg_merge_all_perm]. }
+  split; [exact PP|].
+  apply mg_sorted_perm_eq; try (apply mg_sorted_map, mg_merge_all_sorted; assumption).
+  now apply Permutation_map.
+Qed.
+
+Lemma mg_merge_sort_spec : forall inputs,
+  (inputs = [] -> mg_merge_sort score inputs = Err EIndex) /\
+  (inputs <> [] -> Exists (fun l => l = []) inputs -> mg_merge_sort score inputs = Err ERuntime) /\
+  (mg_wf inputs -> mg_merge_sort score inputs = Ok (mg_merge_all score inputs)).
+Proof.
+  intros inputs. unfold mg_merge_sort. repeat split.
+  - intros ->. reflexivity.
+  - intros Hne Hex. destruct inputs as [|l ls]; [congruence|].
+    destruct (existsb mg_is_nil (l :: ls)) eqn:E; [reflexivity|].
+    apply mg_no_empty in E. rewrite Forall_forall in E. apply Exists_exists in Hex.
+    destruct Hex as (x & Hx & ->). exfalso. now apply (E [] Hx).
+  - intros [Hne Hall]. destruct inputs as [|l ls]; [congruence|].
+    apply mg_no_empty in Hall. now rewrite Hall.
+Qed.
+
+(* ---------- (2) the table merger: streaming.MergedTabularDataReader ---------- *)
+Lemma mg_stream_sorted_inputs : forall desc inputs,
+  mg_wf inputs -> Forall (mg_sorted desc) inputs ->
+  mg_merge_stream score desc inputs = (mg_merge_all (mg_key desc) inputs, None).
+Proof.
+  intros desc inputs Hwf Hs. rewrite mg_stream_wf by exact Hwf. rewrite mg_chk_loop_key.
+  unfold mg_merge_all. apply mg_chk_sorted.
+  - rewrite mg_rows_init. lia.
+  - apply mg_init_sorted. eapply Forall_impl; [|exact Hs]. intros l. apply mg_sorted_key.
+Qed.
+
+Lemma mg_stream_unsorted : forall desc inputs,
+  mg_wf inputs -> Exists (fun l => ~ mg_sorted desc l) inputs ->
+  snd (mg_merge_stream score desc inputs) = Some EValue.
+Proof.
+  intros desc inputs Hwf Hex. rewrite mg_stream_wf by exact Hwf. rewrite mg_chk_loop_key.
+  apply mg_chk_unsorted.
+  - rewrite mg_rows_init. lia.
+  - apply mg_init_unsorted. apply Exists_exists in Hex. destruct Hex as (l & Hl & Hn).
+    apply Exists_exists. exists l. split; [exact Hl|]. intros H. apply Hn. now apply mg_sorted_key.
+Qed.
+
+Lemma mg_stream_prefix_sorted : forall desc inputs,
+  mg_sorted desc (fst (mg_merge_stream score desc inputs)).
+Proof.
+  intros desc inputs. apply mg_sorted_key. rewrite mg_stream_key. unfold mg_merge_stream.
+  destruct inputs as [|l ls]; [constructor|].
+  destruct (existsb mg_is_nil (l :: ls)); [constructor | apply mg_chk_prefix_sorted].
+Qed.
+
+Lemma mg_stream_no_fuel_error : forall desc inputs,
+  snd (mg_merge_stream score desc inputs) <> Some EFuel.
+Proof.
+  intros desc inputs. rewrite mg_stream_key. unfold mg_merge_stream.
+  destruct inputs as [|l ls]; [discriminate|].
+  destruct (existsb mg_is_nil (l :: ls)); [discriminate|].
+  apply mg_chk_fuel. rewrite mg_rows_init. lia.
+Qed.
+
+Lemma mg_checked_sorted_inputs : forall desc inputs,
+  mg_wf inputs -> Forall (mg_sorted desc) inputs ->
+  mg_merge_checked score desc inputs = Ok (mg_merge_all (mg_key desc) inputs).
+Proof. intros. unfold mg_merge_checked. now rewrite mg_stream_sorted_inputs. Qed.
+
+Lemma mg_checked_rejects : forall desc inputs,
+  mg_wf inputs -> Exists (fun l => ~ mg_sorted desc l) inputs ->
+  mg_merge_checked score desc inputs = Err EValue.
+Proof.
+  intros desc inputs Hwf Hex. unfold mg_merge_checked.
+  assert (H := mg_stream_unsorted desc inputs Hwf Hex).
+  destruct (mg_merge_stream score desc inputs) as [out e]. cbn in H. now subst e.
+Qed.
+
+Lemma mg_checked_err_iff : forall desc inputs, mg_wf inputs ->
+  (mg_merge_checked score desc inputs = Err EValue <-> Exists (fun l => ~ mg_sorted desc l) inputs).
+Proof.
+  intros desc inputs Hwf. split; [|now apply mg_checked_rejects].
+  intros H. destruct (Forall_Exists_dec (mg_sorted desc) (mg_sorted_dec desc) inputs) as [F|E]; [|exact E].
+  rewrite mg_checked_sorted_inputs in H by assumption. discriminate.
+Qed.
+
+Lemma mg_checked_no_inputs : forall desc, mg_merge_checked score desc [] = Err EAssertion.
+Proof. reflexivity. Qed.
+
+Lemma mg_checked_empty_input : forall desc inputs,
+  inputs <> [] -> Exists (fun l => l = []) inputs -> mg_merge_checked score desc inputs = Err ERuntime.
+Proof.
+  intros desc inputs Hne Hex. unfold mg_merge_checked, mg_merge_stream.
+  destruct inputs as [|l ls]; [congruence|].
+  destruct (existsb mg_is_nil (l :: ls)) eqn:E; [reflexivity|].
+  apply mg_no_empty in E. rewrite Forall_forall in E. apply Exists_exists in Hex.
+  destruct Hex as (x & Hx & ->). exfalso. now apply (E [] Hx).
+Qed.
+
+Lemma mg_checked_wf_of_ok : forall desc inputs out,
+  mg_merge_checked score desc inputs = Ok out -> mg_wf inputs.
+Proof.
+  intros desc inputs out H. unfold mg_merge_checked, mg_merge_stream in H.
+  destruct inputs as [|l ls]; [discriminate|].
+  destruct (existsb mg_is_nil (l :: ls)) eqn:E; [discriminate|].
+  split; [discriminate | now apply mg_no_empty].
+Qed.
+
+(* a result is only ever returned for inputs sorted as declared, and then it is THE sorted merge *)
+Lemma mg_checked_ok : forall desc inputs out,
+  mg_merge_checked score desc inputs = Ok out ->
+  mg_wf inputs /\ Forall (mg_sorted desc) inputs /\
+  Permutation out (concat inputs) /\ mg_sorted desc out /\
+  (forall s, mg_at score s out = mg_at score s (concat inputs)).
+Proof.
+  intros desc inputs out H. assert (Hwf := mg_checked_wf_of_ok _ _ _ H).
+  destruct (Forall_Exists_dec (mg_sorted desc) (mg_sorted_dec desc) inputs) as [F|E].
+  2:{ rewrite mg_checked_rejects in H by assumption. discriminate. }
+  rewrite mg_checked_sorted_inputs in H by assumption. inversion H; subst out. clear H.
+  assert (F' : Forall (StronglySorted (mg_ge (mg_key desc))) inputs).
+  { eapply Forall_impl; [|exact F]. intros l. apply mg_sorted_key. }
+  split; [exact Hwf|]. split; [exact F|]. split; [|split].
+  - unfold mg_merge_all. rewrite <- (mg_rows_init row inputs) at 2.
+    apply mg_merge_perm. rewrite mg_rows_init. lia.
+  - apply mg_sorted_key. unfold mg_merge_all. apply mg_merge_sorted.
+    + rewrite mg_rows_init. lia.
+    + now apply mg_init_sorted.
+  - intros s. rewrite <- !(mg_at_key desc). unfold mg_merge_all.
+    rewrite <- (mg_rows_init row inputs) at 2.
+    apply mg_merge_ties; [rewrite mg_rows_init; lia | now apply mg_init_sorted].
+Qed.
+
+Lemma mg_checked_no_fuel_error : forall desc inputs, mg_merge_checked score desc inputs <> Err EFuel.
+Proof.
+  intros desc inputs H. unfold mg_merge_checked in H.
+  assert (N := mg_stream_no_fuel_error desc inputs).
+  destruct (mg_merge_stream score desc inputs) as [out [e|]]; [|discriminate].
+  inversion H; subst e. now apply N.
+Qed.
+
+Lemma mg_merge_all_fuel_spec : forall inputs k,
+  mg_merge score (length (concat inputs) + k) (mg_init inputs) = mg_merge_all score inputs /\
+  length (mg_merge_all score inputs) = length (concat inputs).
+Proof. intros. split; [apply mg_merge_all_fuel | apply mg_merge_all_length]. Qed.
+
+Lemma mg_checked_malformed : forall desc inputs,
+  (inputs = [] -> mg_merge_checked score desc inputs = Err EAssertion) /\
+  (inputs <> [] -> Exists (fun l => l = []) inputs -> mg_merge_checked score desc inputs = Err ERuntime).
+Proof. intros. split; [intros ->; apply mg_checked_no_inputs | apply mg_checked_empty_input]. Qed.
+
+Lemma mg_no_fuel_error : forall desc inputs,
+  mg_merge_checked score desc inputs <> Err EFuel /\
+  snd (mg_merge_stream score desc inputs) <> Some EFuel.
+Proof. intros. split; [apply mg_checked_no_fuel_error | apply mg_stream_no_fuel_error]. Qed.
+
+End MergeDir.
+
+Arguments mg_dir {row} score desc a b.
+Arguments mg_sorted {row} score desc l.
+Arguments mg_wf {row} inputs.
+Arguments mg_neg {row} score r.
+Arguments mg_key {row} score desc.
